@@ -84,3 +84,32 @@ HARNESS(h_split) {
   if (0) {} SPL(0) SPL(1) SPL(2) SPL(3) SPL(4) SPL(5) SPL(6) SPL(7) SPL(8) SPL(9) SPL(10) SPL(11) SPL(12) SPL(13) SPL(14) SPL(15) SPL(16)
   WIT(A.f0 == 0 && IN_k + 1 == TOT);
 }
+
+/* ---------------- C02 K2.2: the number automaton accepts exactly the RFC 8259 number grammar (one chunk, value terminated by ',') ---------------- */
+/* tokres: f0 ec, f1 sub, f2 pstate, f3 cp, f4 cp2, f5 more, f6 consumed, f7 nbuf, f8 buf, f9 nev, f10 ev[2], f11 bound */
+/* reference: text = PRE PFX s[0..NS) ; the number is the longest prefix of text+... that ends before the first byte that cannot continue a number */
+static int ref_number(const u8* t, unsigned n, unsigned* len, int* is_int) {
+  unsigned p = 0; *is_int = 1;
+  if (p < n && t[p] == '-') p++;
+  if (p >= n) return -1;                       /* need more input */
+  if (t[p] == '0') p++; else if (t[p] >= '1' && t[p] <= '9') { for (int i = 0; i < 24; i++) if (p < n && t[p] >= '0' && t[p] <= '9') p++; } else return 0;
+  if (p < n && t[p] >= '0' && t[p] <= '9') return 0;            /* leading zero followed by a digit */
+  if (p < n && t[p] == '.') { p++; *is_int = 0; if (p >= n) return -1; if (!(t[p] >= '0' && t[p] <= '9')) return 0; for (int i = 0; i < 24; i++) if (p < n && t[p] >= '0' && t[p] <= '9') p++; }
+  if (p < n && (t[p] == 'e' || t[p] == 'E')) { p++; *is_int = 0; if (p < n && (t[p] == '+' || t[p] == '-')) p++; if (p >= n) return -1; if (!(t[p] >= '0' && t[p] <= '9')) return 0; for (int i = 0; i < 24; i++) if (p < n && t[p] >= '0' && t[p] <= '9') p++; }
+  if (p >= n) return -1;                       /* the number may continue in the next chunk */
+  *len = p; return 1;                          /* terminated by t[p] */
+}
+HARNESS(h_number) {
+  u8* s = mkin(); HAVOC(IN_opts); IN_opts = 0;
+  struct S_struct_2etokres A; run(s, TOT, &A);
+  u8 full[24]; unsigned nf = 0; for (unsigned i = 0; i < NPRE; i++) full[nf++] = pre[i]; for (unsigned i = 0; i < TOT; i++) full[nf++] = s[i];
+  unsigned len = 0; int is_int = 0; int rr = ref_number(full, nf, &len, &is_int);
+  if (rr == 0) P(A.f0 != 0, "a byte sequence that cannot begin an RFC 8259 number is rejected");
+  if (rr == 1) { u8 term = full[len]; int termok = (term == ',' || term == ']' || term == '}' || term == ' ' || term == '\t' || term == '\n' || term == '\r');
+    if (termok) { P(A.f0 == 0 && A.f9 == 1, "a complete RFC 8259 number followed by a structural character or white space is accepted as one value");
+      P(A.f6 + NPRE == len || A.f6 + NPRE == len + 1, "the number token ends where the grammar says");
+      P((A.f10.a[0].f0 == 9 || A.f10.a[0].f0 == 10) == (is_int != 0), "integer literals are delivered as integers, literals with a fraction or exponent as doubles"); }
+    else if (term != '/') P(A.f0 != 0, "a number followed by a byte that cannot follow a value is rejected"); }
+  if (rr == -1) P(A.f0 == 0 && A.f9 == 0, "an incomplete number is neither rejected nor delivered: the automaton waits for more input");
+  WIT(rr == 1 && A.f0 == 0); WIT(rr == 0);
+}
